@@ -13,6 +13,9 @@ def _graphs(seed, nrandom=6):
     gs.append(("agg-empty", {"g": ("agg", []), "t": ("build", ["g"])}, ["t"]))
     gs.append(("shared+explicit", {"a": ("build", []), "b": ("build", ["a"]), "c": ("build", ["a", "b"])}, ["c", "a", "b"]))
     gs.append(("dup-dependency", {"a": ("build", []), "b": ("build", ["a"]), "c": ("build", ["a", "a", "b", "b"]), "g": ("agg", ["c", "c"]), "d": ("build", ["g"])}, ["d"]))
+    gs.append(("dep-requested-first", {"lib": ("build", []), "app": ("build", ["lib"]), "docs": ("build", [])}, ["lib", "app"]))
+    gs.append(("two-paths-short-first", {"docs": ("build", []), "lib": ("build", []), "app": ("build", ["lib"]), "all": ("agg", ["docs", "lib", "app"]), "top": ("build", ["all"])}, ["top"]))
+    gs.append(("two-paths-through-aggregate", {"lib": ("build", []), "g": ("agg", ["lib"]), "app": ("build", ["g"]), "all": ("agg", ["lib", "g", "app"])}, ["all"]))
     gs.append(("late-requester", dict([("b", ("build", []))] + [("a%d" % i, ("agg", ["b" if i == 0 else "a%d" % (i - 1)])) for i in range(25)] + [("top", ("build", ["b", "a24"]))]), ["top"]))
     rnd = random.Random(seed)
     for k in range(nrandom):
@@ -50,7 +53,7 @@ def _build_deps(g, t, acc=None):
     return acc
 
 
-def _targets(g, fail=None, sleep=0.05):
+def _targets(g, fail=None, sleep=0.25):
     ts = {}
     for nm, (kind, deps) in g.items():
         d = {}
@@ -83,6 +86,30 @@ def order_case(gname, g, roots):
         for t in g:
             if t not in clo and g[t][0] == "build" and ("s " + t) in log:
                 return {"property": "C08", "expected": "target %s is outside the closure of %s and never runs" % (t, roots), "observed": "log %s" % log, "zinoma": r.brief()}
+        return None
+    return fn
+
+
+def rerun_case(gname, g, roots):
+    """every build declares an input: the second invocation on the untouched tree skips everything and terminates"""
+    def fn(pr):
+        ts = _targets(g, sleep=0.0)
+        for nm, (kind, deps) in g.items():
+            if kind == "build":
+                pr.write("in_%s/x.txt" % nm, "1", record=False)
+                ts[nm]["input"] = [{"paths": ["in_%s" % nm]}]
+        pr.files["in_<target>/x.txt"] = "1"
+        pr.write("zinoma.yml", yml(ts))
+        r = pr.run(*roots, timeout=60)
+        if r.timed_out or r.rc != 0:
+            return {"property": "C04", "expected": "first run of graph %s: exit 0" % gname, "observed": "exit %s timed out %s" % (r.rc, r.timed_out), "zinoma": r.brief()}
+        for rep in (2, 3):
+            pr.clear_log()
+            r = pr.run(*roots, timeout=60)
+            if r.timed_out:
+                return {"property": "C04", "expected": "invocation %d of graph %s on the untouched tree (every target up to date) terminates" % (rep, gname), "observed": "no exit within 60 s; log %s" % pr.log()[-5:], "zinoma": r.brief()}
+            if r.rc != 0 or pr.log():
+                return {"property": "C03", "expected": "invocation %d of graph %s on the untouched tree runs no script and exits 0" % (rep, gname), "observed": "exit %s log %s" % (r.rc, pr.log()[:8]), "zinoma": r.brief()}
         return None
     return fn
 
@@ -213,6 +240,8 @@ def cases(seed, tier="quick"):
     for (gname, g, roots) in _graphs(seed, 24 if tier == "thorough" else 6):
         if gname.startswith("random"):
             out.append(Case("graph", "back-edge:" + gname, broken_variant_case(gname, g, roots, seed + len(g)), "a back edge added to %s" % gname))
+        if not gname.startswith("random") or gname in ("random0", "random1"):
+            out.append(Case("graph", "rerun:" + gname, rerun_case(gname, g, roots), "graph %s with inputs: second and third invocation skip everything and terminate" % gname))
         out.append(Case("graph", "order:" + gname, order_case(gname, g, roots), "one-shot run of graph %s roots %s: terminates, order, exactly once, only the closure" % (gname, roots)))
         builds = [t for t in _closure(g, roots) if g[t][0] == "build"]
         if gname != "late-requester" and builds:
